@@ -133,9 +133,15 @@ def judge(ctx, c, hist, line, rp, exc, deep=True):
     if real != line["a"]:
         ctx.count("asis_divergent_states")
     bad = {}
-    direct = None
+    direct, nclosure = None, 0
     for i, (p, l) in enumerate(cells):
         e = D.EXP[line["e"][i]]
+        closure = False
+        if e == "rel":
+            direct = direct_cells(c, hist) if direct is None else direct
+            closure = (tuple(p), l) not in direct
+            if closure:
+                nclosure += 1
         if e in ("reg", "rel") and not real[i]:
             kind = "missing"
         elif e == "no" and real[i]:
@@ -145,11 +151,12 @@ def judge(ctx, c, hist, line, rp, exc, deep=True):
                 ctx.count("model_violation_not_on_real")
             continue
         cause = line["c"][i] if (line["a"][i] == real[i]) else 0
-        if cause == 0 and kind == "missing" and e == "rel":
-            direct = direct_cells(c, hist) if direct is None else direct
-            if (tuple(p), l) not in direct:
-                cause = "closure"
+        if cause == 0 and kind == "missing" and closure:
+            cause = "closure"
         bad.setdefault(_signature(opk, kind, cause), []).append([D.pstr(p), l, e])
+    if nclosure:
+        ctx.count("relation_closure_cells_judged", nclosure)
+        ctx.count("relation_closure_transitions")
     for sig, where in bad.items():
         good = False
         ctx.count("real_violations:" + sig)
@@ -495,9 +502,13 @@ async def _main(ctx):
             _deep_config(ctx, c)
         ctx.exhaustive = True
         await _source_config(ctx, sf)
-        big = conf("T3", 3, True, 99, types=("PRIMARY", "SYMLINK"))
-        _trace_config(ctx, sf, big, ctx.pick(250, 4000), ctx.pick(7, 9), "wrap")
+        ctx.require(ctx.counters.get("relation_closure_transitions", 0) > 100,
+                    "the exhaustive configurations hardly reach relations that share an end (vacuous closure clause)")
+        # quick: the stack of depth two (it contains the simple wrapping: /a/b/x on L3 has one inner copy, /a/a/x two)
+        big = conf("T3", 3, True, 99, types=both, wrap2=ctx.quick)
+        _trace_config(ctx, sf, big, ctx.pick(250, 4000), ctx.pick(7, 9), "wrap2" if ctx.quick else "wrap")
         if not ctx.quick:
+            _trace_config(ctx, sf, conf("T3", 3, True, 99, types=both, wrap2=True), 1500, 9, "wrap2")
             _trace_config(ctx, sf, dict(conf("T3", 3, False, 99, types=("PRIMARY", "SYMLINK")), same_dep=True),
                           2000, 9, "same-deployment")
     finally:
